@@ -304,7 +304,7 @@ class H:
     def fail(self, label, detail=""):
         self.check(False, label, detail)
 
-    def close(self, actual, expected, label, rtol=CONC_RTOL, atol=1e-12, approx=False):
+    def close(self, actual, expected, label, rtol=CONC_RTOL, atol=1e-12, approx=False, rational=False):
         """actual == expected (exactly in Real mode; else not robustly different)"""
         A, B = _flat(actual), _flat(expected)
         if len(A) != len(B):
@@ -343,6 +343,21 @@ class H:
             self.results.append((label, "proved"))
             return
         rob = z3.Or(*robust)
+        # 0. rational-function normal form: a - b == 0 as a polynomial identity (denominators are non-zero on the path)
+        if rational:
+            ok = True
+            cache = {}
+            for a, b in zip(A, B):
+                if not isinstance(a, (SR, SB)) and not isinstance(b, (SR, SB)):
+                    continue
+                num, den = sym.ratfun(sym.lift(a).t - sym.lift(b).t, cache)
+                if not sym.poly_is_zero(num):
+                    ok = False
+                    break
+            if ok:
+                E.stats["queries"]["unsat_by_polynomial_identity"] = E.stats["queries"].get("unsat_by_polynomial_identity", 0) + 1
+                self.results.append((label, "proved"))
+                return
         # 1. linear abstraction (UF + linear arithmetic): exact equality, then "not robustly different"
         if not approx and E._acheck(z3.Not(eq)) == "unsat":
             self.results.append((label, "proved"))
